@@ -936,3 +936,28 @@ package exec
 //@   panics_if (t.state == TaskErr && t.err == nil) || t.state > TaskLost
 //@   ensures  err == ite(t.state == TaskErr, t.err, ite(t.state == TaskLost, ErrTaskLost, nil))
 //@   modifies nothing
+
+// ---- C03: runner election. Eval hands a task to the executor only if, holding the task's lock, it found the task in
+// ---- state INIT (a LOST task is first reset to INIT) and has moved it to WAITING, so that of several evaluators
+// ---- sharing the task exactly one becomes its runner; Executor.Run is entered with the task WAITING. The evaluator's
+// ---- own bookkeeping calls are abstracted in this unit (they have their own contracts above).
+//@ extern func exec.Executor.Run (task)
+//@   requires handed-over-waiting-by-its-runner: task != nil && task.state == TaskWaiting
+//@   modifies unknown
+
+//@ extern func exec.newState
+//@   ensures result != nil
+//@   modifies nothing
+//@ extern func exec.newEvalStatus
+//@   ensures result != nil
+//@   modifies nothing
+//@ extern func fv:exec.Eval.cancel
+//@   modifies nothing
+//@ func exec.Eval (ctx, executor, roots, group) (err)
+//@   requires ctx != nil && executor != nil
+//@   may_panic
+//@   flag trust_nil_safety
+//@   flag abstract_calls exec.(*state).Enqueue, exec.(*state).Err, exec.(*state).Return, exec.(*state).Runnable
+//@   flag abstract_total exec.(*state).Done, exec.(*state).Todo
+//@   modifies unknown
+//@   loop 4 step elected-under-the-lock: range_coll[at_head(range_idx)].state == at_head(range_coll[range_idx].state) || ((at_head(range_coll[range_idx].state) == TaskInit || at_head(range_coll[range_idx].state) == TaskLost) && range_coll[at_head(range_idx)].state == TaskWaiting)
